@@ -29,8 +29,26 @@ Statements only (helper lemmas live in `SmVerif/Lemmas/MinHashInv.lean`).
   false as first stated; they are proved under the extra hypothesis
   `Excl s : s.num = 0 ∨ s.maxHash = 0` (`*_partial`), which every sketch built
   by the Python layer satisfies and which every operation preserves.
+* **every history of the whole modelled API, all handles** (`inv_every_history`): for sketches created through
+  the Python constructor (which refuses num together with scaled) the invariant holds in EVERY cell of the
+  handle table of the `mh` stream — sketch handles and signature objects — after EVERY list of operations
+  (add / add_many / abundance adds / set_abundances / remove_many / clear / merge / `+` / copy / pickle /
+  downsample(scaled | num) / flatten / intersection / inflate / md5 queries / signature wrap, set, add_sequence,
+  pickle), and at every intermediate step; no hypothesis, no `_partial`.  Abundance alignment and positivity
+  (`abundances_aligned_positive_every_history`) is the corresponding clause of `Inv`.
+* **num semantics** (`num_history_take`, `num_sketch_is_bottom_n`): after any removal-free history across any
+  number of sketches with the same `num` (adds, add_many, set_abundances, merge / `+=`, `+`, copy) a num sketch is
+  the first `num` entries of the unbounded reference sketch of the same history, i.e. it holds exactly the `num`
+  smallest distinct hashes offered, each with the total abundance offered (`num_retained_counts`).  What removals do,
+  exactly: `num_remove_exact` / `num_remove_keeps_rep_iff`.
+* **tie to the source** (`add_decisions_match_model`, `merge_decisions_match_model`, `glue_calls_match_model`):
+  the comparison operators, guards, truncation lengths and callees the model hard-codes are re-read from
+  minhash.rs / ffi/minhash.rs by `harness/translators/mhcore.py` on every run.
 -/
 import SmVerif.Lemmas.MinHashInv
+import SmVerif.Lemmas.MhMachineInv
+import SmVerif.Lemmas.MinHashNumHist
+import SmVerif.Model.Generated
 
 namespace Sm.C01
 
@@ -141,6 +159,76 @@ theorem inv_reachable_counterexample :
   revert this
   decide
 
+/-! ### the tie to the source: the decision structure of minhash.rs the model transcribes
+(`harness/translators/mhcore.py`; a body that no longer has the modelled shape at all fails the translation) -/
+
+/-- `add_hash_with_abundance`: `hash > max_hash && max_hash != 0` is skipped; the "good hash" test is
+`hash <= max_hash || hash <= current_max || len < num`; after a middle insertion the vector is popped when
+`len > num` — the comparisons `MH.addHashAb` has; `remove_hash`, `clear` and the one-line loops are as modelled -/
+theorem add_decisions_match_model :
+    Sm.Gen.mhAddGuardCmp = .cmpGt ∧ Sm.Gen.mhAddGuardAnd = true ∧ Sm.Gen.mhAddGuardNzCmp = .cmpNe ∧
+    Sm.Gen.mhAddGoodCmps = [.cmpLe, .cmpLe, .cmpLt] ∧
+    Sm.Gen.mhAddTruncCmp = .cmpGt ∧ Sm.Gen.mhAddTruncOff = 0 ∧ Sm.Gen.mhLoopsAsModelled = true := by decide
+
+/-- `merge`: arms `x < value` / `x == value` / `x > value`, the abundances of a common hash are summed, the result is
+truncated to `num` (both vectors, no offset) when `len > num && num != 0` — what `mergeP` / `MH.merge` have;
+`downsample_scaled` refuses `self.scaled() > scaled`; `intersection` has the modelled body -/
+theorem merge_decisions_match_model :
+    Sm.Gen.mhMergeArmCmps = [.cmpLt, .cmpEq, .cmpGt] ∧ Sm.Gen.mhMergeSumsBoth = true ∧
+    Sm.Gen.mhMergeTruncCmp = .cmpGt ∧ Sm.Gen.mhMergeTruncAnd = true ∧ Sm.Gen.mhMergeTruncNzCmp = .cmpNe ∧
+    Sm.Gen.mhMergeTruncMinsOff = 0 ∧ Sm.Gen.mhMergeTruncAbundsOff = 0 ∧
+    Sm.Gen.mhDownsampleRefuseCmp = .cmpGt ∧ Sm.Gen.mhDownsampleMaxHashViaScaled = true ∧
+    Sm.Gen.mhIntersectionAsModelled = true := by decide
+
+/-- the FFI entry points call what the model's glue functions call, in that order -/
+theorem glue_calls_match_model :
+    Sm.Gen.mhFfiGlueAsModelled = true ∧
+    Sm.Gen.mhFfiCalls.lookup "kmerminhash_add_hash" = some ["add_hash"] ∧
+    Sm.Gen.mhFfiCalls.lookup "kmerminhash_add_hash_with_abundance" = some ["add_hash_with_abundance"] ∧
+    Sm.Gen.mhFfiCalls.lookup "kmerminhash_add_many" = some ["add_hash"] ∧
+    Sm.Gen.mhFfiCalls.lookup "kmerminhash_add_from" = some ["add_from"] ∧
+    Sm.Gen.mhFfiCalls.lookup "kmerminhash_remove_hash" = some ["remove_hash"] ∧
+    Sm.Gen.mhFfiCalls.lookup "kmerminhash_remove_many" = some ["remove_many"] ∧
+    Sm.Gen.mhFfiCalls.lookup "kmerminhash_remove_from" = some ["mins", "remove_many"] ∧
+    Sm.Gen.mhFfiCalls.lookup "kmerminhash_set_abundances" = some ["sort(pairs)", "clear", "add_many_with_abund"] ∧
+    Sm.Gen.mhFfiCalls.lookup "kmerminhash_clear" = some ["clear"] ∧
+    Sm.Gen.mhFfiCalls.lookup "kmerminhash_merge" = some ["merge"] ∧
+    Sm.Gen.mhFfiCalls.lookup "kmerminhash_intersection" = some ["intersection", "clone", "clear", "add_many"] := by
+  decide
+
+/-! ### every history of the whole modelled API, over the handle table -/
+
+open Sm.DriverMh in
+/-- **the invariant in every reachable state of the whole API.**  Run ANY list of operations of the `mh` stream from
+the empty table (sketches are created by the Python constructor): after every step every sketch in the table —
+plain handles and the sketches inside signature objects — satisfies `Inv` and is not both num and scaled. -/
+theorem inv_every_history (ops : List DriverMh.Op) :
+    (∀ i s, get (run init ops).1 i = some s → Inv s ∧ Excl s) ∧
+    (∀ t ∈ trace init ops, ∀ i s, get t.1 i = some s → Inv s ∧ Excl s) :=
+  ⟨Sm.table_good ops, Sm.trace_good ops⟩
+
+open Sm.DriverMh in
+/-- abundance vector alignment and positivity over the same histories: every stored abundance is ≥ 1 and there is
+exactly one per hash -/
+theorem abundances_aligned_positive_every_history (ops : List DriverMh.Op) :
+    ∀ i s, get (run init ops).1 i = some s → ∀ ab, s.abunds = some ab →
+      ab.length = s.mins.length ∧ ∀ a ∈ ab, 1 ≤ a := fun i s h ab hab =>
+  ⟨(Sm.table_good ops i s h).1.aligned ab hab, (Sm.table_good ops i s h).1.positive ab hab⟩
+
+open Sm.DriverMh in
+/-- every sketch the driver SHOWS (`ok num=… mins=… ab=…`, the line compared with the real code) is valid -/
+theorem shown_sketch_valid (ops : List DriverMh.Op) (op : DriverMh.Op) {s : MH}
+    (h : (exec (run init ops).1 op).2 = .mh s) : Inv s :=
+  (Sm.exec_shown_good (Sm.table_good ops) op h).1
+
+/-- the same about the text lines of a case: what the driver prints is the rendering of a trace all of whose
+tables are valid -/
+theorem inv_every_history_lines (lines : List String) :
+    (DriverMh.stepLines DriverMh.init lines).2 =
+      (DriverMh.trace DriverMh.init (lines.map DriverMh.parseD)).map (fun t => DriverMh.render t.2.2) ∧
+    ∀ t ∈ DriverMh.trace DriverMh.init (lines.map DriverMh.parseD), DriverMh.All Sm.Good t.1 :=
+  ⟨DriverMh.lines_trace _ _, Sm.trace_good _⟩
+
 /-! ### scaled sketches refine the finite-map specification -/
 
 /-- adding hash `h` with abundance `a` to the abstract content of a sketch with
@@ -226,6 +314,57 @@ theorem num_add_take {s u : MH} (hs : Inv s) (hu : Inv u)
 theorem num_merge_take {s o r : MH} (hr : s.merge o = .ok r) (hn : s.num ≠ 0) :
     r.pairs.map Prod.fst = ((mergeP s.pairs o.pairs).take s.num).map Prod.fst :=
   Sm.num_merge_take' hr hn
+
+/-! ### num semantics over whole histories -/
+
+/-- **removal-free histories** (adds, add_many, abundance adds, set_abundances, merge / `+=`, `+`, copy, across any
+number of sketches created with the same `num`): the num sketch is the first `num` entries — hashes AND
+abundances — of the unbounded reference sketch of the same history -/
+theorem num_history_take {n k hf seed : Nat} (hn : n ≠ 0) (t : NumHist) {s : MH} (hw : t.WF)
+    (he : t.eval n k hf seed = .ok s) :
+    ∃ u, t.ref k hf seed = .ok u ∧ s.pairs = u.pairs.take n ∧ s.mins = u.mins.take n ∧
+      ∀ z, z ∈ u.mins ↔ z ∈ t.offered := by
+  obtain ⟨u, hu, hr, hnum⟩ := Sm.numHist_rep hn t hw he
+  exact ⟨u, hu, hnum ▸ hr.rep, hnum ▸ hr.mins, (Sm.numHist_ref_mem t hw hu).2⟩
+
+/-- **a num sketch holds exactly the `num` smallest distinct hashes offered** (`sortDedup l` is the strictly
+ascending list with the members of `l`: `sortDedup_spec`) -/
+theorem num_sketch_is_bottom_n {n k hf seed : Nat} (hn : n ≠ 0) (t : NumHist) {s : MH} (hw : t.WF)
+    (he : t.eval n k hf seed = .ok s) : s.mins = (sortDedup t.offered).take n :=
+  Sm.num_sketch_is_bottom_n' hn t hw he
+
+theorem sortDedup_spec (l : List Nat) : Sorted (sortDedup l) ∧ ∀ z, z ∈ sortDedup l ↔ z ∈ l :=
+  ⟨Sm.sorted_sortDedup l, fun z => Sm.mem_sortDedup z l⟩
+
+/-- every retained hash carries the count the unbounded reference carries (for which C01's scaled specification —
+`count_addHashAb_scaled`, `count_merge_scaled` — says: the total abundance offered) -/
+theorem num_retained_counts {n k hf seed : Nat} (hn : n ≠ 0) (t : NumHist) {s : MH} (hw : t.WF)
+    (he : t.eval n k hf seed = .ok s) :
+    ∃ u, t.ref k hf seed = .ok u ∧ ∀ x ∈ s.mins, count s x = count u x := by
+  obtain ⟨u, hu, hr, _⟩ := Sm.numHist_rep hn t hw he
+  exact ⟨u, hu, fun x hx => hr.count_eq hx⟩
+
+/-- **what a removal does to a num sketch, exactly.**  With `s` the bottom-`num` of the reference `u`: the removal
+erases the hash from both and restores nothing, so the sketch is afterwards the bottom-`num` of the reference iff
+the hash was not retained or nothing had been evicted (`u` no longer than `num`); otherwise it is exactly one
+short: the bottom-(`num`-1).  (This is D21: the evicted hash cannot come back.) -/
+theorem num_remove_exact {s u : MH} (h : NumRep s u) (x : Nat) :
+    (s.removeHash x).mins = s.mins.erase x ∧ (u.removeHash x).mins = u.mins.erase x ∧
+    (s.removeHash x).mins =
+      if x ∈ s.mins ∧ s.num < u.mins.length then (u.removeHash x).mins.take (s.num - 1)
+      else (u.removeHash x).mins.take s.num :=
+  Sm.num_remove_exact' h x
+
+theorem num_remove_keeps_rep_iff {s u : MH} (h : NumRep s u) (x : Nat) :
+    (s.removeHash x).mins = (u.removeHash x).mins.take s.num ↔ ¬ (x ∈ s.mins ∧ s.num < u.mins.length) :=
+  Sm.num_remove_keeps_rep_iff h x
+
+/-- non-vacuity: three sketches, `+`, merge and add_many in one history; num = 3 -/
+example :
+    let t : NumHist := .merge (.plus (.addMany (.fresh false) [9, 4, 4, 7]) (.add (.fresh false) 1))
+                              (.addMany (.fresh false) [8, 2, 9])
+    t.WF ∧ (∃ s, t.eval 3 21 1 42 = .ok s ∧ s.mins = [1, 2, 4]) ∧ sortDedup t.offered = [1, 2, 4, 7, 8, 9] := by
+  refine ⟨by simp only [NumHist.WF]; decide, ⟨_, rfl, by decide⟩, by decide⟩
 
 /-- **D21 (known finding).**  "exactly the num smallest among values added and
 not since removed" is false of a bottom-k sketch once a removal follows an
